@@ -12,7 +12,7 @@ CONSTANTS
   Downs = @DOWNS@
   AuthClasses = @AUTH@
   HiddenClasses = @HIDDEN@
-  PortCfgs = @PORTS@
+  PortMode = "@PORTS@"
   AllCuts = @ALLCUTS@
   Dev = @DEV@
   FullTimeline = @FULL@
